@@ -20,7 +20,7 @@ Init ==
   /\ t \in 1..Len(Progs)
   /\ x = Index(Flatten(Progs[t].prog))
   /\ tree = MkTree(Progs[t].prog, Progs[t].struct)
-  /\ st = Start(x, <<>>, <<"lines", Progs[t].init>>)
+  /\ st = Start(x, Progs[t].ord, <<>>, <<"lines", Progs[t].init>>)
   /\ nav = StartNav(x, Progs[t].ord, tree, st)
   /\ hist = <<>>
 
